@@ -76,9 +76,12 @@ def validPerms (s : String) : Bool :=
 def validHashPfx (hash pfx : String) : Bool :=
   hash != "" && blen hash ≤ 512 && pfx != "" && blen pfx ≤ 256
 
+/-- the name clause of `validateTokenEntry` (also applied by `applyUpdateToken` to a changed name) -/
+def validTokenName (name : String) : Bool := name != "" && blen name ≤ 256
+
 /-- `validateTokenEntry` -/
 def validToken (e : TokenEntry) : Bool :=
-  e.name != "" && blen e.name ≤ 256 && validHashPfx e.hash e.pfx && validPerms e.perms
+  validTokenName e.name && validHashPfx e.hash e.pfx && validPerms e.perms
 
 def validOrg (e : OrgEntry) : Bool :=
   e.name != "" && blen e.name ≤ 256 && blen e.desc ≤ 1024
